@@ -1,7 +1,9 @@
 // C12 — RC4, CMAC, PKCS#7 and GPP-AES match their standards and invert each other.
 // E2: explicit-state BFS to fix-point over the real rc4.RC4 object (every chunk length, in
-//     place / separate dst, Reset) and over the real CMAC hash.Hash (Write(k), Sum(nil),
-//     Sum(prefix), Reset) for AES-128/192/256, DES and 3DES.
+//
+//	place / separate dst, Reset) and over the real CMAC hash.Hash (Write(k), Sum(nil),
+//	Sum(prefix), Reset) for AES-128/192/256, DES and 3DES.
+//
 // E4: exhaustive PKCS#7 pad/unpad grid and rejection alphabet, GPP password lattice.
 package main
 
@@ -277,7 +279,9 @@ func rc4All(c *vf.Ctx) {
 					out := make([]byte, 32)
 					cp := *r
 					pan, msg, where = vf.Try(func() { cp.XORKeyStream(out, out) })
-					lc.Check("C12/rc4/Reset/usable-afterwards", !pan, func() string { return describe(path, op) + ": XORKeyStream after Reset panics: " + msg + " at " + where })
+					lc.Check("C12/rc4/Reset/usable-afterwards", !pan, func() string {
+						return describe(path, op) + ": XORKeyStream after Reset panics: " + msg + " at " + where
+					})
 					d := "R|" + rc4Dump(r, raw) + "|" + string(out)
 					prev := resetCanon.Load()
 					if prev == nil {
